@@ -5,10 +5,16 @@
   functions: no assumption on the writer or the parser is used), ALL states of the directory (including a stale
   <name>.shx-bak, a missing .res/.hkl), ALL outcomes of the external program and ALL call histories.
 
-  `Fix.all` is the repaired code (fixes/C19_1 … C19_4, C04_1); the `…_orig_fails_on` theorems are the `decide`-proved
+  `Fix.all` is the repaired code (fixes/C19_1 … C19_5, C04_1); the `…_orig_fails_on` theorems are the `decide`-proved
   witnesses that the code as found (`Fix.none`, or one repair missing) violates the same statements.
   The former open finding (ACTA removal shifted `delete_on_write`, overlap with C04) is repaired in the tree (C04_1):
   `ins_is_model` is full strength; the legacy behaviour is kept as `Fix.dow = false` with its witness.
+
+  Outcomes include what SHELXL PRINTS (`ConOut`): `output_cannot_abort` (neither the output nor the .lst has any influence),
+  `nohkl_restores`. The line list (`Line`, `delActa`, `putActa`, `linesAfter`): `lines_after_good_run`,
+  `lines_after_failed_run` — for all lists before the run and all lists after the reload, ACTA is the entry directly
+  after UNIT of the list as it is then; `removeActa_lines`/`restoreActa_lines` tie the abstract `Doc.acta` to the list;
+  `stale_position_fails_on`: a position taken from the list before the run is wrong after the reload.
 -/
 import ShelxModel.C19
 
@@ -20,7 +26,7 @@ variable {B R : Type}
 theorem runShelxl_ins (f : Fix) (c : Codec B R) (fs : FS B) (call : Call B) :
     (runShelxl f c fs call).1.ins = fs.ins := by
   obtain ⟨res, ins, bak, hkl, saves⟩ := fs
-  obtain ⟨cycles, backup, ⟨exit, ro, lst⟩⟩ := call
+  obtain ⟨cycles, backup, ⟨exit, ro, lst, con⟩⟩ := call
   unfold runShelxl backupStep restoreStep
   cases hkl <;> cases backup <;> cases res <;> simp <;> (repeat' split) <;> simp_all
 
@@ -29,7 +35,7 @@ theorem runShelxl_not_started (f : Fix) (c : Codec B R) (fs : FS B) (call : Call
     (h : (fs.hkl && (!call.backup || fs.res.isSome)) = false) :
     runShelxl f c fs call = (fs, some .SystemExit) := by
   obtain ⟨res, ins, bak, hkl, saves⟩ := fs
-  obtain ⟨cycles, backup, ⟨exit, ro, lst⟩⟩ := call
+  obtain ⟨cycles, backup, ⟨exit, ro, lst, con⟩⟩ := call
   unfold runShelxl backupStep
   cases hkl <;> cases backup <;> cases res <;> simp_all
 
@@ -50,11 +56,11 @@ theorem runShelxl_failed (c : Codec B R) (fs : FS B) (call : Call B)
       (if call.backup then { backedUp true fs with bak := none }
        else { fs with res := left fs.res call.out.res }, some .SystemExit) := by
   obtain ⟨res, ins, bak, hkl, saves⟩ := fs
-  obtain ⟨cycles, backup, ⟨exit, ro, lst⟩⟩ := call
+  obtain ⟨cycles, backup, ⟨exit, ro, lst, con⟩⟩ := call
   unfold runShelxl backupStep restoreStep backedUp
-  unfold failed at hf
   unfold plausible at hp
-  cases hkl <;> cases backup <;> cases res <;> cases ro <;>
+  unfold failed at hf hp
+  cases hkl <;> cases backup <;> cases res <;> cases ro <;> cases con <;>
     simp_all [Fix.all, left] <;> (try (repeat' split)) <;> (try simp_all) <;> (try omega)
 
 /-- the repaired code, good run: no exception, .res is what SHELXL left, the backup stays -/
@@ -64,11 +70,11 @@ theorem runShelxl_ok (c : Codec B R) (fs : FS B) (call : Call B)
     runShelxl Fix.all c fs call =
       ({ backedUp call.backup fs with res := left fs.res call.out.res }, none) := by
   obtain ⟨res, ins, bak, hkl, saves⟩ := fs
-  obtain ⟨cycles, backup, ⟨exit, ro, lst⟩⟩ := call
+  obtain ⟨cycles, backup, ⟨exit, ro, lst, con⟩⟩ := call
   unfold runShelxl backupStep restoreStep backedUp
-  unfold failed at hf
   unfold plausible at hp
-  cases hkl <;> cases backup <;> cases res <;> cases ro <;>
+  unfold failed at hf hp
+  cases hkl <;> cases backup <;> cases res <;> cases ro <;> cases con <;>
     simp_all [Fix.all, left] <;> (try (repeat' split)) <;> (try simp_all) <;> (try omega)
 
 /-- a run that reports success has left a result file, and .res is that file -/
@@ -76,7 +82,7 @@ theorem runShelxl_none (f : Fix) (c : Codec B R) (fs : FS B) (call : Call B)
     (h : (runShelxl f c fs call).2 = none) :
     ∃ b, (runShelxl f c fs call).1.res = some b ∧ left fs.res call.out.res = some b := by
   obtain ⟨res, ins, bak, hkl, saves⟩ := fs
-  obtain ⟨cycles, backup, ⟨exit, ro, lst⟩⟩ := call
+  obtain ⟨cycles, backup, ⟨exit, ro, lst, con⟩⟩ := call
   revert h
   unfold runShelxl backupStep restoreStep
   cases hkl <;> cases backup <;> cases res <;> cases ro <;>
@@ -155,7 +161,7 @@ def wSt : St Nat Nat :=
 def wSt' : St Nat Nat :=
   ⟨⟨some 21, none, some 33, true, []⟩, ⟨⟨some ⟨5, 3⟩, 10, 21⟩, false, 0⟩⟩
 
-def good (b : Nat) : Outcome Nat := ⟨0, .wrote b, .good⟩
+def good (b : Nat) : Outcome Nat := ⟨0, .wrote b, .good, .plain⟩
 
 /-- C04_1 missing: ACTA is deleted from `_reslist`, `delete_on_write` still points one line further -/
 theorem ins_is_model_orig_fails_on :
@@ -237,13 +243,13 @@ theorem nonzero_status_restores (c : Codec B R) (st : St B R) (call : Call B)
   failure_restores c st call hb hp (failed_of_exit_ne_zero c _ _ he)
 
 /-- segmentation fault (−11) after a 60-byte result was written; exit code 255 likewise -/
-example : plausible wc wSt.fs.res ⟨-11, .wrote 60, .good⟩ = true ∧
-    (refine Fix.all wc wSt ⟨some 4, true, ⟨-11, .wrote 60, .good⟩⟩).st.fs.res = wSt.fs.res ∧
-    (refine Fix.all wc wSt ⟨some 4, true, ⟨255, .wrote 60, .missing⟩⟩).st.fs.res = wSt.fs.res ∧
-    (refine Fix.all wc wSt ⟨some 4, true, ⟨-11, .wrote 60, .good⟩⟩).st.mem.doc.rest = wSt.mem.doc.rest := by decide
+example : plausible wc wSt.fs.res ⟨-11, .wrote 60, .good, .plain⟩ = true ∧
+    (refine Fix.all wc wSt ⟨some 4, true, ⟨-11, .wrote 60, .good, .plain⟩⟩).st.fs.res = wSt.fs.res ∧
+    (refine Fix.all wc wSt ⟨some 4, true, ⟨255, .wrote 60, .missing, .plain⟩⟩).st.fs.res = wSt.fs.res ∧
+    (refine Fix.all wc wSt ⟨some 4, true, ⟨-11, .wrote 60, .good, .plain⟩⟩).st.mem.doc.rest = wSt.mem.doc.rest := by decide
 
-example : (wSt.fs.res.isSome ∧ failed wc wSt.fs.res ⟨0, .removed, .raises⟩ ∧
-    plausible wc wSt.fs.res ⟨0, .removed, .raises⟩) := by decide
+example : (wSt.fs.res.isSome ∧ failed wc wSt.fs.res ⟨0, .removed, .raises, .plain⟩ ∧
+    plausible wc wSt.fs.res ⟨0, .removed, .raises, .plain⟩) := by decide
 
 /-! ### success: reload, ACTA directly after UNIT -/
 
@@ -289,7 +295,7 @@ theorem no_stale_restore (c : Codec B R) (st : St B R) (call : Call B) :
     (refine Fix.all c st call).st.fs.res = left st.fs.res call.out.res := by
   rw [refine_fs_of_run]
   obtain ⟨⟨res, ins, bak, hkl, saves⟩, m⟩ := st
-  obtain ⟨cycles, backup, ⟨exit, ro, lst⟩⟩ := call
+  obtain ⟨cycles, backup, ⟨exit, ro, lst, con⟩⟩ := call
   simp only [runShelxl, backupStep, restoreStep, Fix.all]
   cases hkl <;> cases backup <;> cases res <;> cases ro <;>
     simp [left] <;> (repeat' split) <;> simp_all
@@ -324,9 +330,9 @@ theorem failure_keeps_model (c : Codec B R) (st : St B R) (call : Call B)
       simp [hr] at hb
 
 /-- a crash with the backup switched off and an old backup file lying around: an exception leaves `refine` -/
-example : (refine Fix.all wc wSt ⟨some 4, false, ⟨1, .wrote 0, .good⟩⟩).exc ≠ none ∧
-    (refine Fix.all wc wSt ⟨some 4, false, ⟨1, .wrote 0, .good⟩⟩).st.fs.res = some 0 ∧
-    (refine Fix.all wc wSt ⟨some 4, false, ⟨1, .wrote 0, .good⟩⟩).st.mem.doc.acta = some ⟨5, 1⟩ := by decide
+example : (refine Fix.all wc wSt ⟨some 4, false, ⟨1, .wrote 0, .good, .plain⟩⟩).exc ≠ none ∧
+    (refine Fix.all wc wSt ⟨some 4, false, ⟨1, .wrote 0, .good, .plain⟩⟩).st.fs.res = some 0 ∧
+    (refine Fix.all wc wSt ⟨some 4, false, ⟨1, .wrote 0, .good, .plain⟩⟩).st.mem.doc.acta = some ⟨5, 1⟩ := by decide
 
 /-! ### one call meets the whole specification; histories -/
 
@@ -470,7 +476,7 @@ theorem no_acta_from_nowhere (c : Codec B R) (st : St B R) (call : Call B)
 
 /-- good run of a model with ACTA, re-read of the ACTA-free result, crash, re-read of a file with ACTA, good run -/
 def wSteps : List (Step Nat) :=
-  [.call ⟨some 4, true, good 60⟩, .load none, .call ⟨none, true, ⟨-9, .wrote 30, .missing⟩⟩, .load (some 71),
+  [.call ⟨some 4, true, good 60⟩, .load none, .call ⟨none, true, ⟨-9, .wrote 30, .missing, .plain⟩⟩, .load (some 71),
    .call ⟨some 2, false, good 80⟩]
 
 example : stepsPlausible wc wSt wSteps = true ∧ (traceSteps Fix.all wc wSt wSteps).length = 3 ∧
@@ -504,7 +510,7 @@ theorem res_is_last_success (c : Codec B R) (calls : List (Call B)) :
     have hhkl : (refine Fix.all c st call).st.fs.hkl = true := by
       rw [refine_fs_of_run]
       obtain ⟨⟨res, ins, bak, hkl, saves⟩, m⟩ := st
-      obtain ⟨cycles, backup, ⟨exit, ro, lst⟩⟩ := call
+      obtain ⟨cycles, backup, ⟨exit, ro, lst, con⟩⟩ := call
       simp only [runShelxl, backupStep, restoreStep, Fix.all]
       cases hkl <;> cases backup <;> cases res <;> cases ro <;>
         simp [left] <;> (repeat' split) <;> simp_all
@@ -551,52 +557,437 @@ theorem acta_survives_history (c : Codec B R) (calls : List (Call B)) :
 
 /-- a three-call history (good run, crash that removes the result, good run) inside all hypotheses -/
 def wCalls : List (Call Nat) :=
-  [⟨some 4, true, good 60⟩, ⟨none, true, ⟨1, .removed, .raises⟩⟩, ⟨some 2, true, ⟨0, .wrote 70, .missing⟩⟩]
+  [⟨some 4, true, good 60⟩, ⟨none, true, ⟨1, .removed, .raises, .plain⟩⟩, ⟨some 2, true, ⟨0, .wrote 70, .missing, .plain⟩⟩]
 
 example : history wc wSt wCalls = true ∧ allBackup wCalls = true ∧
     allPlausible wc wSt.fs.res wCalls = true ∧ lastGood wc wSt.fs.res wCalls = some 70 := by decide
+
+/-! ### what SHELXL prints and what it leaves in the .lst are advice: they have no influence on the protocol -/
+
+/-- **output_cannot_abort**: whatever the display filter does with the program's output short of 'cannot open hkl' —
+    including raising (a byte that is not UTF-8, a line cut short) — and whatever the list file looks like, `refine` does
+    exactly what it does for a plain banner and a well-formed list file: same files, same object, same way of ending.
+    All states, all calls, no hypothesis. -/
+theorem output_cannot_abort (c : Codec B R) (st : St B R) (cycles : Option Int) (backup : Bool)
+    (exit : Int) (ro : ResOut B) (lst : LstOut) (con : ConOut) (hc : con ≠ .nohkl) :
+    refine Fix.all c st ⟨cycles, backup, ⟨exit, ro, lst, con⟩⟩ =
+    refine Fix.all c st ⟨cycles, backup, ⟨exit, ro, .good, .plain⟩⟩ := by
+  have key : ∀ fs : FS B, runShelxl Fix.all c fs ⟨cycles, backup, ⟨exit, ro, lst, con⟩⟩ =
+      runShelxl Fix.all c fs ⟨cycles, backup, ⟨exit, ro, .good, .plain⟩⟩ := by
+    intro fs
+    cases con <;> cases lst <;> simp_all [runShelxl, Fix.all]
+  show finish _ _ _ _ (runShelxl _ _ _ _) = finish _ _ _ _ (runShelxl _ _ _ _)
+  rw [key]
+
+/-- the split into failed / succeeded does not look at the output or the list file either -/
+theorem failed_indep (c : Codec B R) (pre : Option B) (exit : Int) (ro : ResOut B) (lst : LstOut) (con : ConOut) :
+    failed c pre ⟨exit, ro, lst, con⟩ = failed c pre ⟨exit, ro, .good, .plain⟩ := rfl
+
+/-- **nohkl_restores**: SHELXL reports that it cannot open the reflection file: the call ends with an exception and, with a
+    backup, the previous .res is back — whatever the status and the result file are. No hypothesis. -/
+theorem nohkl_restores (c : Codec B R) (st : St B R) (call : Call B)
+    (hc : call.out.con = .nohkl) (hb : call.backup = true) :
+    (refine Fix.all c st call).st.fs.res = st.fs.res ∧ (refine Fix.all c st call).exc ≠ none := by
+  generalize hx : runShelxl Fix.all c { st.fs with ins := some (write Fix.all c (insMem st call)) } call = x
+  have hfs := refine_fs_of_run Fix.all c st call
+  rw [hx] at hfs
+  obtain ⟨fs2, e⟩ := x
+  have key : fs2.res = st.fs.res ∧ e ≠ none := by
+    obtain ⟨⟨res, ins, bak, hkl, saves⟩, m⟩ := st
+    obtain ⟨cycles, backup, ⟨exit, ro, lst, con⟩⟩ := call
+    simp only at hc hb
+    subst hc hb
+    revert hx
+    simp only [runShelxl, backupStep, restoreStep, Fix.all]
+    cases hkl <;> cases res <;> cases ro <;>
+      simp [left] <;> (repeat' split) <;> simp_all <;> (intro h1 h2; subst h1; subst h2; simp_all)
+  cases e with
+  | none => exact absurd rfl key.2
+  | some e =>
+    have he := refine_exc_of_run_some Fix.all c st call e fs2 hx
+    rw [hfs, he.1]
+    exact ⟨key.1, by simp⟩
+
+/-- inside the hypothesis: 'cannot open hkl' with status 1 and no new result … -/
+example : plausible wc wSt.fs.res ⟨1, .untouched, .missing, .nohkl⟩ = true ∧
+    failed wc wSt.fs.res ⟨1, .untouched, .missing, .nohkl⟩ = true := by decide
+
+/-- … and the point `plausible` excludes: the same report together with status 0 and a fresh result of 60 bytes — a success
+    by the wording of the property, a failure for the code (previous file back, exception) -/
+example : plausible wc wSt.fs.res ⟨0, .wrote 60, .good, .nohkl⟩ = false ∧
+    (refine Fix.all wc wSt ⟨some 4, true, ⟨0, .wrote 60, .good, .nohkl⟩⟩).st.fs.res = wSt.fs.res ∧
+    (refine Fix.all wc wSt ⟨some 4, true, ⟨0, .wrote 60, .good, .nohkl⟩⟩).exc = some .SystemExit := by decide
+
+/-! ### the line list: ACTA goes where UNIT is in the list as it is after the run -/
+
+section Lines
+variable {T : Type}
+
+/-- the list has no ACTA entry -/
+def actaFree (l : List (Line T)) : Bool := l.all fun x => !x.isActa
+
+/-- the list has a UNIT entry -/
+def hasUnit (l : List (Line T)) : Bool := l.any Line.isUnit
+
+/-- number of ACTA entries -/
+def countActa (l : List (Line T)) : Nat := (l.filter Line.isActa).length
+
+@[simp] theorem sansActa_cons (x : Line T) (t : List (Line T)) :
+    sansActa (x :: t) = if x.isActa then sansActa t else x :: sansActa t := by
+  cases x <;> simp [sansActa, List.filter_cons]
+
+@[simp] theorem countActa_cons (x : Line T) (t : List (Line T)) :
+    countActa (x :: t) = (if x.isActa then 1 else 0) + countActa t := by
+  cases x <;> simp [countActa, List.filter_cons] <;> omega
+
+@[simp] theorem squeeze_cons (x : Line T) (t : List (Line T)) :
+    squeeze (x :: t) = if x.isGap then squeeze t else x :: squeeze t := by
+  cases x <;> simp [squeeze, List.filter_cons]
+
+@[simp] theorem actaFree_cons (x : Line T) (t : List (Line T)) :
+    actaFree (x :: t) = (!x.isActa && actaFree t) := by
+  simp [actaFree]
+
+@[simp] theorem hasUnit_cons (x : Line T) (t : List (Line T)) :
+    hasUnit (x :: t) = (x.isUnit || hasUnit t) := by
+  simp [hasUnit]
+
+theorem putActa_isSome (n : Nat) (l : List (Line T)) : (putActa n l).isSome = hasUnit l := by
+  induction l with
+  | nil => rfl
+  | cons x t ih => cases x <;> simp_all [putActa]
+
+/-- ACTA is the entry directly after UNIT — for every list: any number of entries of any kind before, between, after -/
+theorem putActa_next (n : Nat) (l l' : List (Line T)) (h : putActa n l = some l') :
+    afterUnit l' = some (.acta n) := by
+  induction l generalizing l' with
+  | nil => simp [putActa] at h
+  | cons x t ih =>
+    cases x with
+    | unit => simp only [putActa, Option.some.injEq] at h; subst h; simp [afterUnit]
+    | acta m =>
+      simp only [putActa, Option.map_eq_some_iff] at h
+      obtain ⟨t', ht, rfl⟩ := h
+      simpa [afterUnit] using ih t' ht
+    | gap =>
+      simp only [putActa, Option.map_eq_some_iff] at h
+      obtain ⟨t', ht, rfl⟩ := h
+      simpa [afterUnit] using ih t' ht
+    | other tag =>
+      simp only [putActa, Option.map_eq_some_iff] at h
+      obtain ⟨t', ht, rfl⟩ := h
+      simpa [afterUnit] using ih t' ht
+
+/-- nothing else moves: without its ACTA cards the list is what it was, and exactly one card was added -/
+theorem putActa_rest (n : Nat) (l l' : List (Line T)) (h : putActa n l = some l') :
+    sansActa l' = sansActa l ∧ countActa l' = countActa l + 1 := by
+  induction l generalizing l' with
+  | nil => simp [putActa] at h
+  | cons x t ih =>
+    cases x with
+    | unit =>
+      simp only [putActa, Option.some.injEq] at h; subst h
+      simp; omega
+    | acta m =>
+      simp only [putActa, Option.map_eq_some_iff] at h
+      obtain ⟨t', ht, rfl⟩ := h
+      have := ih t' ht
+      simp [this.1, this.2]; omega
+    | gap =>
+      simp only [putActa, Option.map_eq_some_iff] at h
+      obtain ⟨t', ht, rfl⟩ := h
+      have := ih t' ht
+      simp [this.1, this.2]
+    | other tag =>
+      simp only [putActa, Option.map_eq_some_iff] at h
+      obtain ⟨t', ht, rfl⟩ := h
+      have := ih t' ht
+      simp [this.1, this.2]
+
+/-- … and by index: `index_of(acta) − index_of(unit) = 1`. This is the `off := 1` of the abstract `restoreActa`. -/
+theorem putActa_docActa (n : Nat) (l l' : List (Line T)) (hfree : actaFree l = true) (h : putActa n l = some l') :
+    docActa l' = some ⟨n, 1⟩ := by
+  have key : ∀ (l l' : List (Line T)), actaFree l = true → putActa n l = some l' →
+      ∃ u, idxOf Line.isUnit l' = some u ∧ idxOf Line.isActa l' = some (u + 1) ∧ actaText l' = some n := by
+    intro l
+    induction l with
+    | nil => intro l' _ h; simp [putActa] at h
+    | cons x t ih =>
+      intro l' hfree h
+      cases x with
+      | unit =>
+        simp only [putActa, Option.some.injEq] at h; subst h
+        exact ⟨0, by simp [idxOf, actaText]⟩
+      | acta m => simp at hfree
+      | gap =>
+        simp only [putActa, Option.map_eq_some_iff] at h
+        obtain ⟨t', ht, rfl⟩ := h
+        obtain ⟨u, h1, h2, h3⟩ := ih t' (by simpa using hfree) ht
+        exact ⟨u + 1, by simp [idxOf, actaText, h1, h2, h3]⟩
+      | other tag =>
+        simp only [putActa, Option.map_eq_some_iff] at h
+        obtain ⟨t', ht, rfl⟩ := h
+        obtain ⟨u, h1, h2, h3⟩ := ih t' (by simpa using hfree) ht
+        exact ⟨u + 1, by simp [idxOf, actaText, h1, h2, h3]⟩
+  obtain ⟨u, h1, h2, h3⟩ := key l l' hfree h
+  simp only [docActa, h1, h2, h3]
+  congr 1
+  simp only [Acta.mk.injEq, true_and]
+  omega
+
+/-- the written file: dropping the entries that print as nothing commutes with putting ACTA back, so in the FILE the
+    ACTA line follows the UNIT line whatever placeholders the list holds -/
+theorem putActa_squeeze (n : Nat) (l : List (Line T)) :
+    (putActa n l).map squeeze = putActa n (squeeze l) := by
+  induction l with
+  | nil => rfl
+  | cons x t ih =>
+    cases x with
+    | unit => simp [putActa]
+    | acta m =>
+      rw [squeeze_cons]
+      simp only [Line.isGap, Bool.false_eq_true, if_false, putActa]
+      rw [← ih]
+      cases h : putActa n t <;> simp
+    | gap =>
+      rw [squeeze_cons]
+      simp only [Line.isGap, if_true, putActa]
+      rw [← ih]
+      cases h : putActa n t <;> simp
+    | other tag =>
+      rw [squeeze_cons]
+      simp only [Line.isGap, Bool.false_eq_true, if_false, putActa]
+      rw [← ih]
+      cases h : putActa n t <;> simp
+
+theorem actaText_none_of_free (l : List (Line T)) (h : actaFree l = true) : actaText l = none := by
+  induction l with
+  | nil => rfl
+  | cons x t ih => cases x <;> simp_all [actaText]
+
+theorem sansActa_of_free (l : List (Line T)) (h : actaFree l = true) : sansActa l = l := by
+  induction l with
+  | nil => rfl
+  | cons x t ih => cases x <;> simp_all
+
+theorem actaFree_of_count (l : List (Line T)) (h : countActa l = 0) : actaFree l = true := by
+  induction l with
+  | nil => rfl
+  | cons x t ih => cases x <;> simp_all <;> omega
+
+/-- taking the one ACTA card out leaves none: the .ins is written from a list without ACTA -/
+theorem delActa_free (l : List (Line T)) (h : countActa l ≤ 1) : actaFree (delActa l) = true := by
+  induction l with
+  | nil => rfl
+  | cons x t ih =>
+    cases x with
+    | acta m => exact actaFree_of_count t (by simp at h; omega)
+    | unit => simpa [delActa] using ih (by simpa using h)
+    | gap => simpa [delActa] using ih (by simpa using h)
+    | other tag => simpa [delActa] using ih (by simpa using h)
+
+theorem delActa_sans (l : List (Line T)) (h : countActa l ≤ 1) : delActa l = sansActa l := by
+  induction l with
+  | nil => rfl
+  | cons x t ih =>
+    cases x with
+    | acta m =>
+      have := sansActa_of_free t (actaFree_of_count t (by simp at h; omega))
+      simp [delActa, this]
+    | unit => simpa [delActa] using ih (by simpa using h)
+    | gap => simpa [delActa] using ih (by simpa using h)
+    | other tag => simpa [delActa] using ih (by simpa using h)
+
+theorem delActa_hasUnit (l : List (Line T)) : hasUnit (delActa l) = hasUnit l := by
+  induction l with
+  | nil => rfl
+  | cons x t ih => cases x <;> simp_all [delActa]
+
+/-- putting the user's card (if any) into an ACTA-free list with a UNIT line meets the line-level specification -/
+theorem putUser_spec [DecidableEq T] (user : Option Nat) (base : List (Line T)) (hfree : actaFree base = true)
+    (hu : user ≠ none → hasUnit base = true) :
+    ∃ l', putUser user base = some l' ∧
+      specLines user base l' = true ∧ (∀ n, user = some n → docActa l' = some ⟨n, 1⟩) := by
+  cases user with
+  | none => exact ⟨base, rfl, by simp [specLines], by simp⟩
+  | some n =>
+    have hsome : (putActa n base).isSome = true := by
+      rw [putActa_isSome]; exact hu (by simp)
+    obtain ⟨l', hl'⟩ := Option.isSome_iff_exists.mp hsome
+    refine ⟨l', by simpa [putUser] using hl', ?_, ?_⟩
+    · have hr := putActa_rest n base l' hl'
+      have hn := putActa_next n base l' hl'
+      have hc : (l'.filter Line.isActa).length = (base.filter Line.isActa).length + 1 := hr.2
+      simp [specLines, hn, hr.1, hc]
+    · intro m hm
+      cases hm
+      exact putActa_docActa n base l' hfree hl'
+
+/-- **lines_after_good_run**: for EVERY list the object held before the call (blank lines, continuation lines, absorbed
+    lines anywhere, ACTA anywhere) and EVERY list the reload builds from the new result (no ACTA: the .ins had none; a
+    UNIT line), the list in memory after a good run is the new one with exactly the user's ACTA card directly after UNIT
+    (by entry and by index). The two lists need have nothing in common — no position is carried from one to the other. -/
+theorem lines_after_good_run [DecidableEq T] (l ln : List (Line T))
+    (hfree : actaFree ln = true) (hu : hasUnit ln = true) :
+    ∃ l', linesAfter l (some ln) = some l' ∧ specLines (actaText l) ln l' = true ∧
+      (∀ n, actaText l = some n → docActa l' = some ⟨n, 1⟩) :=
+  putUser_spec (actaText l) ln hfree (fun _ => hu)
+
+/-- **lines_after_failed_run**: a call that raised leaves the lines the object had, its ACTA card directly after UNIT -/
+theorem lines_after_failed_run [DecidableEq T] (l : List (Line T)) (h1 : countActa l ≤ 1) (hu : hasUnit l = true) :
+    ∃ l', linesAfter l none = some l' ∧ specLines (actaText l) (sansActa l) l' = true ∧
+      (∀ n, actaText l = some n → docActa l' = some ⟨n, 1⟩) := by
+  have := putUser_spec (actaText l) (delActa l) (delActa_free l h1) (fun _ => by rw [delActa_hasUnit]; exact hu)
+  rw [delActa_sans l h1] at this
+  simpa [linesAfter, delActa_sans l h1] using this
+
+/-- a file as users have them: blank line between ZERR and LATT, SFAC continued over two lines, ACTA three entries behind
+    UNIT; the result SHELXL derives from the .ins has none of the placeholders and lines of its own after TITL -/
+def wLines : List (Line Nat) :=
+  [.other 0, .other 1, .other 2, .gap, .other 3, .other 4, .gap, .unit, .other 5, .other 6, .acta 7, .other 8]
+def wNew : List (Line Nat) :=
+  [.other 0, .other 20, .other 21, .other 1, .other 2, .other 3, .other 4, .unit, .other 5, .other 6, .other 8, .other 9]
+
+example : countActa wLines ≤ 1 ∧ actaFree wNew = true ∧ hasUnit wNew = true ∧ hasUnit wLines = true ∧
+    docActa wLines = some ⟨7, 3⟩ ∧
+    linesAfter wLines (some wNew) = some [.other 0, .other 20, .other 21, .other 1, .other 2, .other 3, .other 4, .unit,
+      .acta 7, .other 5, .other 6, .other 8, .other 9] := by decide
+
+/-- a position remembered from the list BEFORE the run (UNIT + 1 there, once ACTA is out) is the wrong place in the list
+    AFTER the reload whenever an entry above UNIT was not written back: ACTA lands behind the line that follows UNIT -/
+theorem stale_position_fails_on :
+    (idxOf Line.isUnit (delActa wLines)).map (· + 1) = some 8 ∧
+    docActa (putAt 8 7 (squeeze (delActa wLines))) = some ⟨7, 3⟩ ∧
+    afterUnit (putAt 8 7 (squeeze (delActa wLines))) ≠ some (.acta 7) := by decide
+
+end Lines
+
+section LinesRefine
+variable {T : Type}
+
+theorem idxOf_isSome (p : Line T → Bool) (l : List (Line T)) : (idxOf p l).isSome = l.any p := by
+  induction l with
+  | nil => rfl
+  | cons x t ih => by_cases hx : p x = true <;> simp_all [idxOf]
+
+theorem actaText_isSome (l : List (Line T)) : (actaText l).isSome = l.any Line.isActa := by
+  induction l with
+  | nil => rfl
+  | cons x t ih => cases x <;> simp_all [actaText, Line.isActa]
+
+theorem delActa_of_none (l : List (Line T)) (h : actaText l = none) : delActa l = l := by
+  induction l with
+  | nil => rfl
+  | cons x t ih => cases x <;> simp_all [actaText, delActa]
+
+theorem docActa_text (l : List (Line T)) (a : Acta) (h : docActa l = some a) : actaText l = some a.text := by
+  unfold docActa at h
+  split at h
+  · rename_i n i u hn _ _
+    simp only [Option.some.injEq] at h
+    subst h
+    exact hn
+  · simp at h
+
+theorem docActa_none (l : List (Line T)) (hu : hasUnit l = true) (h : docActa l = none) : actaText l = none := by
+  cases ht : actaText l with
+  | none => rfl
+  | some n =>
+    exfalso
+    have hi : (idxOf Line.isActa l).isSome = true := by
+      rw [idxOf_isSome, ← actaText_isSome, ht]; rfl
+    have hq : (idxOf Line.isUnit l).isSome = true := by
+      rw [idxOf_isSome]; exact hu
+    obtain ⟨i, hi⟩ := Option.isSome_iff_exists.mp hi
+    obtain ⟨u, hq⟩ := Option.isSome_iff_exists.mp hq
+    simp [docActa, ht, hi, hq] at h
+
+/-- the abstract model's ACTA (`Doc.acta`, a text and an offset) is the list-level one. Taking the card out:
+    `removeActa` on the document is `delActa` on any line list that shows the same ACTA … -/
+theorem removeActa_lines (l : List (Line T)) (m : Mem R) (h1 : countActa l ≤ 1) (hu : hasUnit l = true)
+    (hrep : docActa l = m.doc.acta) :
+    docActa (delActa l) = (removeActa m).1.doc.acta ∧ actaText l = (removeActa m).2.map (·.text) := by
+  cases ha : m.doc.acta with
+  | none =>
+    rw [ha] at hrep
+    have ht := docActa_none l hu hrep
+    simp [removeActa, ha, ht, delActa_of_none l ht, hrep]
+  | some a =>
+    rw [ha] at hrep
+    have hnone : docActa (delActa l) = none := by
+      simp [docActa, actaText_none_of_free _ (delActa_free l h1)]
+    simp [removeActa, ha, hnone, docActa_text l a hrep]
+
+/-- … and putting it back: `restoreActa`'s `off := 1` is `putActa` on ANY ACTA-free list with a UNIT line — the list of
+    before the run (a run that did not complete) or the list the reload built, whatever their lengths -/
+theorem restoreActa_lines (l l' : List (Line T)) (m : Mem R) (a : Acta) (hfree : actaFree l = true)
+    (h : putActa a.text l = some l') :
+    docActa l' = (restoreActa (some a) m).doc.acta := by
+  rw [putActa_docActa a.text l l' hfree h]
+  simp [restoreActa]
+
+end LinesRefine
 
 /-! ### witnesses: the code as found breaks each statement (kept; `Fix` with the one repair missing) -/
 
 /-- C19_1: result file missing → `os.stat` raises before the restore: the previous .res is not back -/
 theorem failure_restores_orig_fails_on_missing_res :
-    ¬ ((refine { Fix.all with stat := false } wc wSt' ⟨some 4, true, ⟨0, .removed, .good⟩⟩).st.fs.res = wSt'.fs.res) := by
+    ¬ ((refine { Fix.all with stat := false } wc wSt' ⟨some 4, true, ⟨0, .removed, .good, .plain⟩⟩).st.fs.res = wSt'.fs.res) := by
   decide
 
 /-- C19_2: malformed .lst → IndexError before the status is looked at: a crashed run is not rolled back … -/
 theorem failure_restores_orig_fails_on_bad_lst :
-    ¬ ((refine { Fix.all with lst := false } wc wSt' ⟨some 4, true, ⟨1, .wrote 0, .raises⟩⟩).st.fs.res = wSt'.fs.res) := by
+    ¬ ((refine { Fix.all with lst := false } wc wSt' ⟨some 4, true, ⟨1, .wrote 0, .raises, .plain⟩⟩).st.fs.res = wSt'.fs.res) := by
   decide
 
 /-- … and a good run is not reloaded (the object is the old one, without its ACTA) -/
 theorem success_reloads_orig_fails_on_bad_lst :
-    ¬ ((refine { Fix.all with lst := false } wc wSt' ⟨some 4, true, ⟨0, .wrote 60, .raises⟩⟩).st.mem.doc
+    ¬ ((refine { Fix.all with lst := false } wc wSt' ⟨some 4, true, ⟨0, .wrote 60, .raises, .plain⟩⟩).st.mem.doc
         = reloaded wc wSt' 60) := by
   decide
 
 /-- C19_3: backup off, old <name>.shx-bak (33) in the directory → it is copied over what SHELXL left -/
 theorem no_stale_restore_orig_fails_on :
-    ¬ ((refine { Fix.all with stale := false } wc wSt' ⟨some 4, false, ⟨1, .wrote 0, .good⟩⟩).st.fs.res = wSt'.fs.res ∨
-       (refine { Fix.all with stale := false } wc wSt' ⟨some 4, false, ⟨1, .wrote 0, .good⟩⟩).st.fs.res = some 0) := by
+    ¬ ((refine { Fix.all with stale := false } wc wSt' ⟨some 4, false, ⟨1, .wrote 0, .good, .plain⟩⟩).st.fs.res = wSt'.fs.res ∨
+       (refine { Fix.all with stale := false } wc wSt' ⟨some 4, false, ⟨1, .wrote 0, .good, .plain⟩⟩).st.fs.res = some 0) := by
   decide
 
 /-- the same through the code's own backup: good run with backup, then a crash with backup off -/
 theorem no_stale_restore_orig_fails_on_history :
-    (run { Fix.all with stale := false } wc wSt' [⟨some 4, true, good 60⟩, ⟨none, false, ⟨1, .wrote 0, .good⟩⟩]).fs.res
+    (run { Fix.all with stale := false } wc wSt' [⟨some 4, true, good 60⟩, ⟨none, false, ⟨1, .wrote 0, .good, .plain⟩⟩]).fs.res
       = some 21 := by
   decide
 
 /-- C19_4: a failed run and then a good one: the user's ACTA is gone for good -/
 theorem acta_survives_orig_fails_on :
-    (run { Fix.all with acta := false } wc wSt' [⟨some 4, true, ⟨1, .wrote 0, .good⟩⟩, ⟨none, true, good 60⟩]).mem.doc.acta
+    (run { Fix.all with acta := false } wc wSt' [⟨some 4, true, ⟨1, .wrote 0, .good, .plain⟩⟩, ⟨none, true, good 60⟩]).mem.doc.acta
       = none := by
   decide
 
-/-- all four together, the tree as found: result removed with exit 0 → FileNotFoundError, file lost, ACTA lost -/
+/-- C19_5: SHELXL prints a byte that is not UTF-8 (or a line the display filter chokes on) and crashes: the exception
+    leaves the reading loop before the status is looked at — the emptied result is not rolled back … -/
+theorem failure_restores_orig_fails_on_output :
+    ¬ ((refine { Fix.all with con := false } wc wSt' ⟨some 4, true, ⟨1, .wrote 0, .good, .raises⟩⟩).st.fs.res
+        = wSt'.fs.res) := by
+  decide
+
+/-- … and a good run is not reloaded -/
+theorem success_reloads_orig_fails_on_output :
+    ¬ ((refine { Fix.all with con := false } wc wSt' ⟨some 4, true, ⟨0, .wrote 60, .good, .raises⟩⟩).st.mem.doc
+        = reloaded wc wSt' 60) := by
+  decide
+
+/-- C19_5, 'CANNOT OPEN FILE …hkl': the filter left with `sys.exit()` on the spot, the backup was never copied back -/
+theorem failure_restores_orig_fails_on_nohkl :
+    ¬ ((refine { Fix.all with con := false } wc wSt' ⟨some 4, true, ⟨1, .wrote 0, .good, .nohkl⟩⟩).st.fs.res
+        = wSt'.fs.res) := by
+  decide
+
+/-- all of them together, the tree as found: result removed with exit 0 → FileNotFoundError, file lost, ACTA lost -/
 theorem orig_loses_model :
-    (refine Fix.none wc wSt' ⟨some 4, true, ⟨0, .removed, .good⟩⟩).st.fs.res = none ∧
-    (refine Fix.none wc wSt' ⟨some 4, true, ⟨0, .removed, .good⟩⟩).exc = some .FileNotFoundError ∧
-    (refine Fix.none wc wSt' ⟨some 4, true, ⟨0, .removed, .good⟩⟩).st.mem.doc.acta = none := by
+    (refine Fix.none wc wSt' ⟨some 4, true, ⟨0, .removed, .good, .plain⟩⟩).st.fs.res = none ∧
+    (refine Fix.none wc wSt' ⟨some 4, true, ⟨0, .removed, .good, .plain⟩⟩).exc = some .FileNotFoundError ∧
+    (refine Fix.none wc wSt' ⟨some 4, true, ⟨0, .removed, .good, .plain⟩⟩).st.mem.doc.acta = none := by
   decide
 
 end Shelx.C19
